@@ -238,6 +238,38 @@ static void run_pawngroup(const std::string& spec)
     R.subspaces.push_back(sub);
 }
 
+// C14: every placement of a small signature; evaluator A is long-lived (its pawn cache was filled by
+// whichever position with the same pawn structure came first), evaluator B is cleared before every
+// single evaluation (always a cache miss). A transparent cache gives A == B everywhere.
+static void run_pawnpure(const std::string& spec)
+{
+    spaces::SigSpec sp;
+    if (!spaces::parse_sig(spec, sp)) exit(2);
+    mc::Subspace sub;
+    sub.name = "pawnpure " + spec;
+    sub.bound = "every retro-legal placement (pawns are the outer loops, so equal pawn structures are adjacent): long-lived evaluator vs an evaluator cleared before each call";
+    PositionScorer A, B;
+    bool done = spaces::enumerate_sig(sp, [&](const ref::Pos& p) {
+        if (ref::insufficient(p)) return true;
+        Position e(ref::fen(p));
+        if (endgame::score(e) != VALUE_NONE) return true;   // specialised endgames do not use the pawn cache
+        Value va = A.score(e);
+        B.clear();
+        Value vb = B.score(e);
+        sub.states++;
+        sub.transitions += 2;
+        R.count("evaluations", 2);
+        R.count("cleared_evaluations");
+        if (va != vb)
+            R.violation("C14:impure:pawn_cache_depends_on_pieces:" + sigclass(p), mc::JObj().s("fen", ref::fen(p)).n("score_long_lived", va).n("score_after_clear", vb));
+        if ((sub.states & 0x3FF) == 1) R.outcome(std::to_string(va));
+        if (sub.states == 1) R.sample(mc::JObj().s("fen", ref::fen(p)).s("space", sub.name).str());
+        return (sub.states & 255) || !R.out_of_time();
+    });
+    sub.exhaustive = done;
+    R.subspaces.push_back(sub);
+}
+
 // ------------------------------------------------------------------------------------ purity
 struct Structure
 {
@@ -471,6 +503,7 @@ int main(int argc, char** argv)
         else if (parts[0] == "bfs") run_bfs(parts[1], atoi(parts[2].c_str()));
         else if (parts[0] == "seq") run_seq(parts[1]);
         else if (parts[0] == "pawngroup") run_pawngroup(parts[1]);
+        else if (parts[0] == "pawnpure") run_pawnpure(parts[1]);
         else if (parts[0] == "purity")
         {
             int sh = atoi(parts[2].c_str());
